@@ -1,4 +1,5 @@
 import Arimaa.Props.C05
+import Arimaa.Props.C05c
 import Arimaa.Lemmas.RsAgreeOffered
 import Arimaa.Lemmas.RsAgreeStep
 import Arimaa.Gen.Bridge.GameState_can_pass
@@ -71,6 +72,17 @@ starts of turn (exact boards) -/
 theorem C05_code_no_third_occurrence (s0 t : GameState) (h0 : StartOk s0) (as : List Action)
     (hg : CodeGame s0 as t) (p : Board × Bool) : (turnStarts s0 as).count p ≤ 2 :=
   C05_no_third_occurrence s0 h0 as (C05_code_game_is_offered_run hg).1 p
+
+/-- the engine side of C20 for the code as it is now: one step or pass of the regenerated `take_action` makes the
+hash history at most one node longer (so its length is bounded by the number of turns, and the list operations of
+`linked_list.rs`, each of constant stack depth, are applied a bounded number of times per action) -/
+theorem C05_code_history_step (s s' : GameState) (pp : PlayPhase) (hph : s.phase = .play pp) (a : Action)
+    (hmv : a = .pass ∨ ∃ i d, a = .move i d) (ht : GameState_take_action s a = .ok s') :
+    ∃ pp', s'.phase = .play pp' ∧ pp'.hist.length ≤ pp.hist.length + 1 := by
+  simp only [bridge_GameState_take_action] at ht
+  have h2 := (C05_value_of_ok (RsAgree.take_action_eq s a) ht).2
+  subst h2
+  exact C05_history_step s pp hph a hmv
 
 /-- ... and every turn completed in such a game changes the board -/
 theorem C05_code_turn_changes_board (s0 t : GameState) (h0 : StartOk s0) (as : List Action) (a : Action)
